@@ -64,6 +64,8 @@ struct Scn {
     /// the connection task may be polled LATE once (2 ms after it became runnable): timers fire late on a busy
     /// machine, and a peer that answers within a millisecond must survive that also when T = I
     jitter: bool,
+    /// the two option setters are called in the other order (timeout first, then interval)
+    timeout_first: bool,
 }
 
 fn od(ms: u64) -> OptionalDuration {
@@ -102,10 +104,19 @@ impl Future for IdleWait<'_> {
 async fn run_async(sc: &Scn, render: bool) -> RunOutput {
     let t0 = Instant::now();
     // options through the public builders, interval first (the documented order): clamping is part of the subject
-    let mut o = Options::new().keepalive_interval(od(sc.interval));
-    if sc.timeout != 0 {
-        o = o.keepalive_timeout(od(sc.timeout));
-    }
+    let o = if sc.timeout_first {
+        let mut o = Options::new();
+        if sc.timeout != 0 {
+            o = o.keepalive_timeout(od(sc.timeout));
+        }
+        o.keepalive_interval(od(sc.interval))
+    } else {
+        let mut o = Options::new().keepalive_interval(od(sc.interval));
+        if sc.timeout != 0 {
+            o = o.keepalive_timeout(od(sc.timeout));
+        }
+        o
+    };
     let cfg = SideCfg { opts: o, rng: vec![] };
     let mut w = World::one(if sc.hung_tail { 2 } else { UNBOUNDED_CAP }, 0, &cfg);
     let mut raw = Raw::new(1, w.sim.link.clone());
@@ -373,7 +384,7 @@ pub fn run(args: &Args) -> Report {
                 if interval == 0 && (code != 0 || prompt_tail) {
                     continue;
                 }
-                let sc = Scn { interval, timeout, rounds: hist.clone(), prompt_tail, hung_tail: false, peer_pings: false, jitter: false };
+                let sc = Scn { interval, timeout, rounds: hist.clone(), prompt_tail, hung_tail: false, peer_pings: false, jitter: false, timeout_first: false };
                 let label = format!("I={interval}ms T={}ms history={hist:?} then {}", if timeout == 0 { "NONE".to_string() } else { timeout.to_string() }, if prompt_tail { "prompt" } else { "silent" });
                 cases.push(Case { try_unbounded: false, max_k: u32::MAX, label, exec: Box::new(move |r| exec(&sc, r)) });
             }
@@ -389,10 +400,21 @@ pub fn run(args: &Args) -> Report {
             let total = 2usize.pow(len as u32);
             for code in 0..total {
                 let hist: Vec<Delay> = (0..len).map(|r| if (code >> r) & 1 == 0 { Delay::Zero } else { Delay::Half }).collect();
-                let sc = Scn { interval, timeout, rounds: hist.clone(), prompt_tail: false, hung_tail: true, peer_pings: false, jitter: false };
+                let sc = Scn { interval, timeout, rounds: hist.clone(), prompt_tail: false, hung_tail: true, peer_pings: false, jitter: false, timeout_first: false };
                 let label = format!("I={interval}ms T={}ms history={hist:?} then the peer hangs (reads nothing), send side congested", if timeout == 0 { "NONE".to_string() } else { timeout.to_string() });
                 cases.push(Case { try_unbounded: false, max_k: u32::MAX, label, exec: Box::new(move |r| exec(&sc, r)) });
             }
+        }
+    }
+    // the same (I, T) pairs given through the builder in the other order: the pair, not the order, is the configuration
+    for &(interval, timeout) in &cfgs2 {
+        if interval == 0 || timeout == 0 {
+            continue;
+        }
+        for (hist, prompt_tail) in [(vec![], false), (vec![Delay::Zero, Delay::Zero], false), (vec![Delay::Zero, Delay::Half, Delay::Zero], true)] {
+            let sc = Scn { interval, timeout, rounds: hist.clone(), prompt_tail, hung_tail: false, peer_pings: false, jitter: false, timeout_first: true };
+            let label = format!("I={interval}ms T={timeout}ms (timeout set BEFORE the interval) history={hist:?} then {}", if prompt_tail { "prompt" } else { "silent" });
+            cases.push(Case { try_unbounded: false, max_k: u32::MAX, label, exec: Box::new(move |r| exec(&sc, r)) });
         }
     }
     // a live peer that answers every Ping at once, and the connection task polled 2 ms late once (any one poll)
@@ -400,7 +422,7 @@ pub fn run(args: &Args) -> Report {
         if interval == 0 {
             continue;
         }
-        let sc = Scn { interval, timeout, rounds: vec![Delay::Zero; 3], prompt_tail: true, hung_tail: false, peer_pings: false, jitter: true };
+        let sc = Scn { interval, timeout, rounds: vec![Delay::Zero; 3], prompt_tail: true, hung_tail: false, peer_pings: false, jitter: true, timeout_first: false };
         let label = format!("I={interval}ms T={}ms every Ping answered at once; one poll of the connection task comes 2 ms late", if timeout == 0 { "NONE".to_string() } else { timeout.to_string() });
         cases.push(Case { try_unbounded: false, max_k: 0, label, exec: Box::new(move |r| exec(&sc, r)) });
     }
@@ -415,7 +437,7 @@ pub fn run(args: &Args) -> Report {
             for code in 0..total {
                 let hist: Vec<Delay> = (0..len).map(|r| if (code >> r) & 1 == 0 { Delay::Zero } else { Delay::Half }).collect();
                 for prompt_tail in [false, true] {
-                    let sc = Scn { interval, timeout, rounds: hist.clone(), prompt_tail, hung_tail: false, peer_pings: true, jitter: false };
+                    let sc = Scn { interval, timeout, rounds: hist.clone(), prompt_tail, hung_tail: false, peer_pings: true, jitter: false, timeout_first: false };
                     let label = format!("I={interval}ms T={}ms history={hist:?} then {}; the peer sends its own Ping every interval throughout", if timeout == 0 { "NONE".to_string() } else { timeout.to_string() }, if prompt_tail { "prompt" } else { "silent" });
                     cases.push(Case { try_unbounded: false, max_k: u32::MAX, label, exec: Box::new(move |r| exec(&sc, r)) });
                 }
@@ -436,7 +458,7 @@ pub fn run(args: &Args) -> Report {
         witness_names: &[("timeout_detected", W_TIMEOUT), ("survived_to_horizon", W_SURVIVED), ("ping_seen", W_PING_SEEN), ("keepalive_disabled_case", W_DISABLED), ("timeout_clamped_to_interval", W_CLAMPED), ("operations_resolved_after_timeout", W_RESOLVED_AFTER_TIMEOUT), ("late_pong_tolerated", W_LATE_PONG), ("peer_hung_with_congested_send_side", W_HUNG), ("peer_sends_its_own_pings", W_PEER_PINGS), ("connection_task_polled_late", W_LATE_POLL)],
     };
     rep.rule = "psim in virtual time: one real endpoint whose Options come from the public builders, its real task future polled by hand inside a paused-clock tokio runtime (timers fire by auto-advance, TimestampProvider reads the same clock), a raw peer answering Ping k after a scripted delay; EVERY history of R delays over {0, T/2, T, T+10 ms, never} followed by a silent or prompt tail (plus: after every history of <= 2 (thorough: R) in-time answers the peer HANGS, i.e. stops reading as well, while the application sends a burst into a transport of capacity 2, so the send side is congested when the timeout is due; plus: the peer sends Pings of its own every interval throughout, also while it does not answer ours; plus: a peer answering at once while any ONE poll of the connection task comes 2 ms late (a timer firing late), which must not look like a dead peer even when T = I), for every (I,T) pair incl. T<I (clamped), T=I, T=NONE and I=NONE; timer-vs-pong races at equal instants are scheduling choices (<= k deviations). Oracle: Ping k leaves at k*I; disabled => no Ping, no end; the task ends only with KeepaliveTimeout, at a time t with last_pong+T_eff <= t <= last_pong+T_eff+I; never when every Ping was answered within T; no silent gap > T_eff+I survives; after the timeout the pending accept/get_datagram resolve although the transport stays silent".into();
-    rep.assumptions = vec!["tolerance 3 ms for tokio's millisecond timer rounding".into(), "the interval is set before the timeout (documented builder order)".into()];
+    rep.assumptions = vec!["tolerance 3 ms for tokio's millisecond timer rounding".into(), "both orders of the two builder calls are exercised (the reversed order for every (I,T) pair with three histories)".into()];
     run_cases(args, &mut rep, cases, &plan);
     rep
 }
